@@ -94,6 +94,15 @@ def harness_build():
     return rc == 0, out
 
 
+MEMCRSD_TARGET = os.path.join(WORK, "memcrsd-target")
+
+
+def memcrsd_build():
+    """the real server binary, built from /repo's working tree into a scratch target directory"""
+    rc, out = sh(["cargo", "build", "--manifest-path", "/repo/memcrs/Cargo.toml", "--bin", "memcrsd", "--target-dir", MEMCRSD_TARGET, "--offline"], timeout=3000)
+    return rc == 0, out
+
+
 # ------------------------------------------------------------------------------------------------
 # suites
 # ------------------------------------------------------------------------------------------------
@@ -126,7 +135,7 @@ class Run:
                                   "line": int(m.group(4)), "msg": m.group(5)})
 
     def programs(self):
-        starts = [i for i, l in enumerate(self.ops) if l.startswith("new") or l.startswith("prog") or l.startswith("srv ") or l.startswith("cnew") or l.startswith("stress")]
+        starts = [i for i, l in enumerate(self.ops) if l.startswith("new") or l.startswith("prog") or l.startswith("srv ") or l.startswith("cnew") or l.startswith("stress") or l.startswith("ext ")]
         if not starts:
             starts = [0]
         bounds = starts + [len(self.ops)]
